@@ -206,6 +206,7 @@ class Check:
             outside_claim=self.outside,
             queries_discharged=len(Z.QUERY_LOG),
             solver_seconds=round(solver_time, 3),
+            slowest_queries=sorted(Z.QUERY_LOG, key=lambda q: -q["seconds"])[:8],
             solver_verdicts={v: sum(1 for q in Z.QUERY_LOG if q["verdict"] == v) for v in ("sat", "unsat", "unknown")},
             witnesses=self.witnesses,
             side_checks=self.side_checks,
